@@ -20,7 +20,13 @@ func Equal(a Value, b Value) bool {
 	if a.Format().IsList() {
 		return reflect.DeepEqual(a.Value(), b.Value())
 	}
-	return a.(Comparable).Compare(b.(Comparable)) == 0
+	ac, aHasOrder := a.(Comparable)
+	bc, bHasOrder := b.(Comparable)
+	if !aHasOrder || !bHasOrder {
+		// empty, bits ...
+		return reflect.DeepEqual(a.Value(), b.Value())
+	}
+	return ac.Compare(bc) == 0
 }
 
 func EqualVals(a []Value, b []Value) bool {
